@@ -490,13 +490,12 @@ func (o RouteObs) String() string {
 	return s
 }
 
-// NullWriter is a fox.ResponseWriter for manual lookups.
-func NullWriter() fox.ResponseWriter { return nil }
+var _ fox.ResponseWriter = (*RW)(nil)
 
 // ObsLookup routes through Reader.Lookup (eager: params are recorded).
 func ObsLookup(rd Reader, p Probe) RouteObs {
 	req := NewRequest(p.Method, p.Host, p.Path, "", "", nil)
-	rt, cc, tsr := rd.Lookup(nil, req)
+	rt, cc, tsr := rd.Lookup(NewRW(NewConn()), req)
 	if rt == nil {
 		return RouteObs{Tag: -1}
 	}
